@@ -65,41 +65,85 @@ Proof.
   intros H. apply bytes_eqb_eq in H. now subst.
 Qed.
 
-Lemma rocfl_read_roundtrip p s :
-  utf8_valid s = true -> pos_value_ok p s = true -> c10_needs_json_escape p s = false ->
-  rocfl_read_pos p (serde_escape s) = Some s.
+(** ** a version name is never escaped by the writer: 'v' [0-9]+ has no quote, no
+    backslash and no control character *)
+Lemma digits_no_escape ds : forallb is_digit ds = true -> needs_escape ds = false.
 Proof.
-  intros U V K. unfold rocfl_read_pos. rewrite (read_with_escape _ _ U K). now apply post_visit_ok.
+  induction ds as [|c ds IH]; [reflexivity|]. cbn [forallb]. intros H.
+  apply andb_true_iff in H as [Hc Hs]. unfold needs_escape in *. cbn [existsb]. rewrite (IH Hs), orb_false_r.
+  unfold is_digit in Hc. apply andb_true_iff in Hc as [H1 H2]. unfold needs_esc_byte. lia.
 Qed.
 
-Lemma rocfl_read_owned p s :
-  pos_borrowed p = false -> utf8_valid s = true -> pos_value_ok p s = true ->
-  rocfl_read_pos p (serde_escape s) = Some s.
+Lemma vparse_ok_no_escape s : is_ok (vparse s) = true -> needs_escape s = false.
 Proof.
-  intros B U V. apply rocfl_read_roundtrip; try assumption. unfold c10_needs_json_escape. now rewrite B.
+  unfold vparse. destruct s as [|c ds]; [discriminate|].
+  destruct (Ascii.eqb c "v"%char) eqn:Ec; cbn [negb]; [|discriminate].
+  destruct ds as [|d0 ds']; [discriminate|].
+  destruct (forallb is_digit (d0 :: ds')) eqn:Ed; cbn [negb]; [|discriminate].
+  intros _. apply Ascii.eqb_eq in Ec. subst c.
+  unfold needs_escape. cbn [existsb]. change (needs_esc_byte "v"%char) with false. cbn [orb].
+  exact (digits_no_escape _ Ed).
 Qed.
 
-Lemma rocfl_read_wedge p s :
-  c10_needs_json_escape p s = true -> rocfl_read_pos p (serde_escape s) = None.
-Proof. intros K. unfold rocfl_read_pos. now rewrite (read_with_escape_fails _ _ K). Qed.
-
-Lemma rocfl_read_iff p s : utf8_valid s = true -> pos_value_ok p s = true ->
-  (rocfl_read_pos p (serde_escape s) = Some s <-> c10_needs_json_escape p s = false).
+(** the two positions still read through a borrowed-only type hold version names only *)
+Lemma version_name_never_escaped p s :
+  main_pos_borrowed p = true -> pos_value_ok p s = true -> needs_escape s = false.
 Proof.
-  intros U V. split.
-  - intros H. destruct (c10_needs_json_escape p s) eqn:E; [|reflexivity].
-    rewrite (rocfl_read_wedge _ _ E) in H. discriminate.
-  - now apply rocfl_read_roundtrip.
+  intros B V. unfold pos_value_ok in V.
+  destruct p; try discriminate; cbn [post_visit] in V;
+    (destruct (is_ok (vparse s)) eqn:E; [now apply vparse_ok_no_escape|discriminate]).
 Qed.
 
-Lemma validator_read_roundtrip p s :
-  utf8_valid s = true -> c10_validator_needs_json_escape p s = false ->
-  validator_read_pos p (serde_escape s) = Some s.
-Proof. intros U K. unfold validator_read_pos. now apply read_with_escape. Qed.
+(** ** the CURRENT main reader (after bb69bb9): every string rocfl writes at a position whose
+    visitor maps it to itself is read back, whatever it contains *)
+Lemma main_read_roundtrip p s :
+  utf8_valid s = true -> pos_value_ok p s = true ->
+  main_read_pos p (serde_escape s) = Some s.
+Proof.
+  intros U V. unfold main_read_pos.
+  assert (K : (main_pos_borrowed p && needs_escape s) = false).
+  { destruct (main_pos_borrowed p) eqn:B; [|reflexivity]. cbn [andb]. now apply (version_name_never_escaped p). }
+  rewrite (read_with_escape _ _ U K). now apply post_visit_ok.
+Qed.
 
-Lemma validator_read_fails p s :
-  c10_validator_needs_json_escape p s = true -> validator_read_pos p (serde_escape s) = None.
-Proof. intros K. unfold validator_read_pos. now apply read_with_escape_fails. Qed.
+(** on ARBITRARY tokens (also those other software writes) the main reader is the conforming
+    decoder followed by the position's visitor, except for an escaped spelling of head / a
+    version key *)
+Lemma main_read_conforming p t :
+  c10_foreign_escaped_version_name p t = false ->
+  main_read_pos p t = match decode_string t with Some s => post_visit p s | None => None end.
+Proof.
+  unfold c10_foreign_escaped_version_name, main_read_pos, read_with, read_borrowed.
+  destruct (main_pos_borrowed p); cbn [andb]; [|reflexivity].
+  intros ->. destruct (decode_string t); reflexivity.
+Qed.
+
+Lemma main_read_conforming_outside_versions p t :
+  main_pos_borrowed p = false ->
+  main_read_pos p t = match decode_string t with Some s => post_visit p s | None => None end.
+Proof. intros B. apply main_read_conforming. unfold c10_foreign_escaped_version_name. now rewrite B. Qed.
+
+Lemma main_read_foreign_escaped_version_refused p t :
+  c10_foreign_escaped_version_name p t = true -> main_read_pos p t = None.
+Proof.
+  unfold c10_foreign_escaped_version_name, main_read_pos, read_with, read_borrowed. intros H.
+  apply andb_true_iff in H as [-> ->]. destruct (decode_string t); reflexivity.
+Qed.
+
+(** rocfl never writes a token of that class *)
+Lemma written_token_not_foreign_class p s :
+  pos_value_ok p s = true -> c10_foreign_escaped_version_name p (serde_escape s) = false.
+Proof.
+  intros V. unfold c10_foreign_escaped_version_name. rewrite has_escape_serde.
+  destruct (main_pos_borrowed p) eqn:B; [|reflexivity]. cbn [andb]. now apply (version_name_never_escaped p).
+Qed.
+
+(** ** the CURRENT validator reader (after 2f36fc5) is the conforming decoder at every position *)
+Lemma val_read_conforming p t : val_read_pos p t = decode_string t.
+Proof. reflexivity. Qed.
+
+Lemma val_read_roundtrip p s : utf8_valid s = true -> val_read_pos p (serde_escape s) = Some s.
+Proof. intros U. unfold val_read_pos. now apply decode_string_escape. Qed.
 
 Lemma reads_back_true p s : reads_back p s = true <-> write_read p s = Some s.
 Proof.
@@ -119,12 +163,29 @@ Definition free_text (p : pos) : bool :=
 Lemma free_text_value_ok p s : free_text p = true -> pos_value_ok p s = true.
 Proof. destruct p; try discriminate; intros _; unfold pos_value_ok; cbn [post_visit]; apply bytes_eqb_refl. Qed.
 
-(** id, contentDirectory, message, user name and address are owned Strings in the
-    main reader: they always read back, whatever they contain *)
+(** id, contentDirectory, message, user name, address and the digests: they always read
+    back, whatever they contain *)
 Lemma owned_text_roundtrip p s :
-  free_text p = true -> pos_borrowed p = false -> utf8_valid s = true ->
+  free_text p = true -> utf8_valid s = true ->
+  main_read_pos p (serde_escape s) = Some s.
+Proof. intros F U. apply main_read_roundtrip; [assumption|now apply free_text_value_ok]. Qed.
+
+(** ** HISTORICAL readers (before bb69bb9 / 2f36fc5): read back exactly outside the positions
+    then borrowed; facts about [rocfl_read_pos] / [validator_read_pos], not about the current code *)
+Lemma rocfl_read_roundtrip_before_fix p s :
+  utf8_valid s = true -> pos_value_ok p s = true -> (pos_borrowed p && needs_escape s) = false ->
   rocfl_read_pos p (serde_escape s) = Some s.
-Proof. intros F B U. apply rocfl_read_owned; try assumption. now apply free_text_value_ok. Qed.
+Proof.
+  intros U V K. unfold rocfl_read_pos. rewrite (read_with_escape _ _ U K). now apply post_visit_ok.
+Qed.
+
+Lemma rocfl_read_wedge_before_fix p s :
+  (pos_borrowed p && needs_escape s) = true -> rocfl_read_pos p (serde_escape s) = None.
+Proof. intros K. unfold rocfl_read_pos. now rewrite (read_with_escape_fails _ _ K). Qed.
+
+Lemma validator_read_fails_before_fix p s :
+  (val_pos_borrowed p && needs_escape s) = true -> validator_read_pos p (serde_escape s) = None.
+Proof. intros K. unfold validator_read_pos. now apply read_with_escape_fails. Qed.
 
 (** * accepted inputs *)
 
@@ -135,16 +196,20 @@ Proof.
   apply bytes_eqb_refl.
 Qed.
 
+(** every accepted cp (no exception any more): the staged inventory is readable *)
 Lemma cp_no_wedge dst src lp :
   cp_logical_path dst src = Ok lp -> utf8_valid lp = true ->
-  c10_needs_json_escape PLogicalPath lp = false ->
-  rocfl_read_pos PLogicalPath (serde_escape lp) = Some lp.
-Proof. intros H U K. apply rocfl_read_roundtrip; try assumption. eapply cp_path_value_ok; eassumption. Qed.
+  main_read_pos PLogicalPath (serde_escape lp) = Some lp /\
+  val_read_pos PLogicalPath (serde_escape lp) = Some lp.
+Proof.
+  intros H U. split; [|now apply val_read_roundtrip].
+  apply main_read_roundtrip; [assumption|]. eapply cp_path_value_ok; eassumption.
+Qed.
 
-Lemma cp_wedge dst src lp :
-  cp_logical_path dst src = Ok lp -> c10_needs_json_escape PLogicalPath lp = true ->
+Lemma cp_wedge_before_fix dst src lp :
+  cp_logical_path dst src = Ok lp -> needs_escape lp = true ->
   rocfl_read_pos PLogicalPath (serde_escape lp) = None.
-Proof. intros _. apply rocfl_read_wedge. Qed.
+Proof. intros _ K. apply rocfl_read_wedge_before_fix. now rewrite K. Qed.
 
 (** * the content directory names create_object accepts (repo.rs:579-590) *)
 Lemma starts_with_app p s : starts_with p (p ++ s) = true.
@@ -155,19 +220,32 @@ Qed.
 
 Lemma create_object_cdir_parts c : create_object_cdir c = true ->
   validate_content_dir c = true /\ is_empty c = false /\
-  bytes_eqb c K_INVENTORY_FILE = false /\ starts_with K_INVENTORY_SIDECAR_PREFIX c = false.
+  bytes_eqb c K_INVENTORY_FILE = false /\ starts_with K_INVENTORY_SIDECAR_PREFIX c = false /\
+  cdir_not_a_file_name c = false.
 Proof.
   unfold create_object_cdir, cdir_reserved. intros H.
+  apply andb_true_iff in H as [H Hn]. apply negb_true_iff in Hn.
   apply andb_true_iff in H as [Hv Hr]. apply negb_true_iff in Hr.
   apply orb_false_iff in Hr as [Hr H3]. apply orb_false_iff in Hr as [H1 H2]. auto.
 Qed.
 
 Lemma create_object_cdir_iff c : create_object_cdir c = true <->
   validate_content_dir c = true /\ is_empty c = false /\
-  bytes_eqb c K_INVENTORY_FILE = false /\ starts_with K_INVENTORY_SIDECAR_PREFIX c = false.
+  bytes_eqb c K_INVENTORY_FILE = false /\ starts_with K_INVENTORY_SIDECAR_PREFIX c = false /\
+  cdir_not_a_file_name c = false.
 Proof.
   split; [apply create_object_cdir_parts|].
-  intros (Hv & H1 & H2 & H3). unfold create_object_cdir, cdir_reserved. now rewrite Hv, H1, H2, H3.
+  intros (Hv & H1 & H2 & H3 & H4). unfold create_object_cdir, cdir_reserved. now rewrite Hv, H1, H2, H3, H4.
+Qed.
+
+(** an accepted name can be the name of a directory: no NUL, at most 255 bytes (the
+    environment's [fs_name_ok]), so neither the first cp nor the stage cleanup of commit
+    (fs.rs:852-855) meets a name the file system refuses *)
+Lemma accepted_cdir_is_file_name c : create_object_cdir c = true -> fs_name_ok c = true.
+Proof.
+  intros H. destruct (create_object_cdir_parts _ H) as (_ & _ & _ & _ & Hn).
+  unfold cdir_not_a_file_name in Hn. apply orb_false_iff in Hn as [Hl Hz].
+  unfold fs_name_ok. rewrite Hz. cbn [negb andb]. lia.
 Qed.
 
 (** the fix only refuses more: an accepted name passes validate_content_dir *)
@@ -181,7 +259,7 @@ Proof. intros H. apply (create_object_cdir_parts _ H). Qed.
     whatever the digest algorithm of the object is *)
 Lemma accepted_cdir_no_collision c alg : create_object_cdir c = true -> cdir_collides c alg = false.
 Proof.
-  intros H. destruct (create_object_cdir_parts _ H) as (_ & _ & H2 & H3).
+  intros H. destruct (create_object_cdir_parts _ H) as (_ & _ & H2 & H3 & _).
   unfold cdir_collides. rewrite H2. cbn [orb].
   destruct (bytes_eqb c (K_INVENTORY_SIDECAR_PREFIX ++ alg)) eqn:E; [|reflexivity].
   apply bytes_eqb_eq in E. subst c. now rewrite starts_with_app in H3.
@@ -211,9 +289,9 @@ Lemma content_path_roundtrip v cdir lp :
   create_object_cdir cdir = true ->
   lpath_try_from lp = Ok lp -> is_empty lp = false ->
   utf8_valid cdir = true -> utf8_valid lp = true ->
-  rocfl_read_pos PContentPath (serde_escape (content_path v cdir lp)) = Some (content_path v cdir lp).
+  main_read_pos PContentPath (serde_escape (content_path v cdir lp)) = Some (content_path v cdir lp).
 Proof.
-  intros. apply rocfl_read_owned; [reflexivity| now apply content_path_utf8 | now apply content_path_value_ok].
+  intros. apply main_read_roundtrip; [now apply content_path_utf8 | now apply content_path_value_ok].
 Qed.
 
 (** create_object followed by the first cp and a commit: the contentDirectory string and
@@ -224,14 +302,15 @@ Lemma accepted_cdir_no_wedge v cdir lp alg :
   create_object_cdir cdir = true ->
   lpath_try_from lp = Ok lp -> is_empty lp = false ->
   utf8_valid cdir = true -> utf8_valid lp = true ->
-  rocfl_read_pos PContentDir (serde_escape cdir) = Some cdir /\
-  rocfl_read_pos PContentPath (serde_escape (content_path v cdir lp)) = Some (content_path v cdir lp) /\
-  cdir_collides cdir alg = false.
+  main_read_pos PContentDir (serde_escape cdir) = Some cdir /\
+  main_read_pos PContentPath (serde_escape (content_path v cdir lp)) = Some (content_path v cdir lp) /\
+  cdir_collides cdir alg = false /\ fs_name_ok cdir = true.
 Proof.
-  intros Hwf Hfit Hc Hlp Hne Uc Ul. split; [|split].
+  intros Hwf Hfit Hc Hlp Hne Uc Ul. split; [|split; [|split]].
   - now apply owned_text_roundtrip.
   - now apply content_path_roundtrip.
   - now apply accepted_cdir_no_collision.
+  - now apply accepted_cdir_is_file_name.
 Qed.
 
 (** historical (before d88c1da): the blank name and both inventory names were accepted *)
@@ -250,9 +329,9 @@ Proof.
 Qed.
 
 Lemma content_path_empty_cdir_wedge v lp :
-  rocfl_read_pos PContentPath (serde_escape (content_path v [] lp)) = None.
+  main_read_pos PContentPath (serde_escape (content_path v [] lp)) = None.
 Proof.
-  unfold rocfl_read_pos. cbn [pos_borrowed read_with].
+  unfold main_read_pos. cbn [main_pos_borrowed read_with].
   destruct (decode_string (serde_escape (content_path v [] lp))) as [r|] eqn:E; [|reflexivity].
   apply decode_string_escape_inv in E as [-> _]. cbn [post_visit]. apply content_path_empty_cdir_unreadable.
 Qed.
@@ -298,10 +377,11 @@ Qed.
 (** an accepted id is written so that every later command reads the very string given *)
 Lemma create_object_id_roundtrip id t :
   create_object_id id = Ok t -> utf8_valid id = true ->
-  t = id /\ rocfl_read_pos PId (serde_escape t) = Some id.
+  t = id /\ main_read_pos PId (serde_escape t) = Some id /\ val_read_pos PId (serde_escape t) = Some id.
 Proof.
-  intros H U. rewrite (create_object_id_same _ _ H). split; [reflexivity|].
-  now apply owned_text_roundtrip.
+  intros H U. rewrite (create_object_id_same _ _ H). split; [reflexivity|]. split.
+  - now apply owned_text_roundtrip.
+  - now apply val_read_roundtrip.
 Qed.
 
 (** historical (before 031a721): the trimmed string was stored *)
